@@ -1,5 +1,5 @@
 (* C19 correspondence cases: an input together with what the implementation answered *)
-From FB Require Export C19.Model Base.Run.
+From FB Require Export C19.Model C19.Acyclic Base.Run.
 
 (* code points of printable ASCII as constants: coqc reads an identifier about three times faster
    than a numeral, and the case files are mostly strings *)
@@ -68,7 +68,9 @@ Inductive case :=
 | CFoundPrint (d : found) (ans : str)                               (* Display for FoundDependency *)
 | CFoundParse (s : str) (ans : res found)                           (* FoundDependency::try_from *)
 | CScopeParse (s : str) (ans : res scope)                           (* DependencyScope::from_str *)
-| CScopePrint (s : scope) (ans : str).
+| CScopePrint (s : scope) (ans : str)
+| CAcyclic (rs : list resolver) (fs : files) (ranks : list (str * N)).
+    (* a generated acyclic universe with the ranks of its documents: the hypothesis of fuel_suffices holds *)
 
 Definition check (c : case) : bool :=
   match c with
@@ -83,6 +85,7 @@ Definition check (c : case) : bool :=
   | CFoundParse s ans => res_eqb found_eqb (parse_found s) ans
   | CScopeParse s ans => res_eqb scope_eqb (parse_scope s) ans
   | CScopePrint s ans => str_eqb (print_scope s) ans
+  | CAcyclic rs fs ranks => acyclic_check fs rs (map (fun kv => (fst kv, N.to_nat (snd kv))) ranks)
   end.
 
 (* sanity: the mediation examples of lib.rs's tests and the doc test of tree.rs *)
